@@ -28,6 +28,8 @@ type PodState struct {
 	NoLastTerm bool  `json:"noLastTerm,omitempty"` // restart count without lastState.terminated
 	RestartAgoSec int `json:"restartAgoSec,omitempty"`
 	Waiting   string `json:"waiting,omitempty"`
+	FirstWaiting string `json:"firstWaiting,omitempty"` // waiting reason of the first container when it differs from the others'
+	InitWaiting  string `json:"initWaiting,omitempty"`  // an init container waiting with this reason (the others wait with PodInitializing)
 	InitRestarts      int32 `json:"initRestarts,omitempty"` // restarts of an init container (status only)
 	InitRestartAgoSec int   `json:"initRestartAgoSec,omitempty"`
 	SideRestarts      int32 `json:"sideRestarts,omitempty"`
@@ -117,7 +119,16 @@ func (s *Sim) finishInjected(p *corev1.Pod, nodeName string, ps PodState) {
 		if w == "" {
 			w = "ImagePullBackOff"
 		}
+		if ps.InitWaiting != "" {
+			w = "PodInitializing"
+		}
 		p.Status.ContainerStatuses = mkCS(corev1.ContainerState{Waiting: &corev1.ContainerStateWaiting{Reason: w}}, false)
+		if ps.FirstWaiting != "" && len(p.Status.ContainerStatuses) > 1 {
+			p.Status.ContainerStatuses[0].State = corev1.ContainerState{Waiting: &corev1.ContainerStateWaiting{Reason: ps.FirstWaiting}}
+		}
+		if ps.InitWaiting != "" {
+			p.Status.InitContainerStatuses = []corev1.ContainerStatus{{Name: "init", Image: "init:1", State: corev1.ContainerState{Waiting: &corev1.ContainerStateWaiting{Reason: ps.InitWaiting}}}}
+		}
 		p.Status.Conditions = append(p.Status.Conditions, corev1.PodCondition{Type: corev1.PodReady, Status: corev1.ConditionFalse, LastTransitionTime: st})
 	case "pending":
 	case "failed":
@@ -128,7 +139,7 @@ func (s *Sim) finishInjected(p *corev1.Pod, nodeName string, ps PodState) {
 	default:
 		panic("pod state " + ps.Kind)
 	}
-	if ps.InitRestarts > 0 {
+	if ps.InitRestarts > 0 && ps.InitWaiting == "" {
 		ago := time.Duration(ps.InitRestartAgoSec) * time.Second
 		if ago == 0 {
 			ago = 45 * time.Second
